@@ -79,8 +79,14 @@ func render(ts []tok, variant int) string {
 					switch {
 					case c > 0xff && c <= 0x1ff: // three octal numerals name code points up to U+01FF
 						fmt.Fprintf(&b, "\\%03o", c)
-					case c > 0x7f: // the language's \x and octal escapes denote code points, not bytes
+					case c > 0xff:
 						fmt.Fprintf(&b, "\\u%04x", c)
+					case c > 0x7f: // the language's \x and octal escapes denote code points, not bytes: \xe9 is U+00E9
+						if variant%2 == 0 {
+							fmt.Fprintf(&b, "\\x%02x", c)
+						} else {
+							fmt.Fprintf(&b, "\\%03o", c)
+						}
 					case i%2 == 0:
 						fmt.Fprintf(&b, "\\x%02x", c)
 					default:
@@ -623,6 +629,58 @@ func checkRenderings(run *vk.Run) {
 			}
 		}
 	}
+	// the defaults, standard output not being a terminal (redirected or piped, as in the documented
+	// `openssl ... <(gcetcbendorsement inspect payload FILE)` flow): the exact field bytes
+	for _, sub := range []struct {
+		name string
+		args []string
+		want []byte
+	}{{"payload", nil, e.SerializedUefiGolden}, {"signature", nil, e.Signature}, {"mask", []string{"--path", "cert"}, g.Cert}} {
+		for _, explicit := range []bool{false, true} {
+			pio := &pipeIO{files: map[string][]byte{"endorsement.binarypb": eb}}
+			root := gcmd.MakeRoot(gcmd.ContextWithBackend(context.Background(), &gcmd.Backend{IO: pio}))
+			args := append([]string{"inspect", sub.name, "endorsement.binarypb"}, sub.args...)
+			if explicit {
+				args = append(args, "--out", "-", "--bytesform", "auto")
+			}
+			root.SetArgs(args)
+			root.SetOut(io.Discard)
+			root.SetErr(io.Discard)
+			root.SilenceErrors, root.SilenceUsage = true, true
+			var xerr error
+			pan, _ := guarded(func() { xerr = root.Execute() })
+			run.Case(fmt.Sprintf("render-cli-default:%s:%v", sub.name, explicit), true)
+			if pan != "" || xerr != nil || !bytes.Equal(pio.stdout.Bytes(), sub.want) {
+				run.Violation("inspect-not-exact:cli-default", fmt.Sprintf("`inspect %s FILE %v` with the default output (standard output, not a terminal; flags spelled out: %v) writes %d bytes that are not the exact field bytes (%d expected; error %v %s)", sub.name, sub.args, explicit, pio.stdout.Len(), len(sub.want), xerr, pan), map[string]any{"sub": sub.name})
+			}
+		}
+	}
+}
+
+// pipeIO: the command's file layer with a standard output that is not a terminal.
+type pipeIO struct {
+	files  map[string][]byte
+	stdout bytes.Buffer
+	other  map[string]*bytes.Buffer
+}
+
+func (p *pipeIO) Create(path string) (gtb.TerminalWriter, func(), error) {
+	if path == "-" {
+		return gtb.NonterminalWriter{Writer: &p.stdout}, func() {}, nil
+	}
+	if p.other == nil {
+		p.other = map[string]*bytes.Buffer{}
+	}
+	b := &bytes.Buffer{}
+	p.other[path] = b
+	return gtb.NonterminalWriter{Writer: b}, func() {}, nil
+}
+
+func (p *pipeIO) ReadFile(path string) ([]byte, error) {
+	if b, ok := p.files[path]; ok {
+		return b, nil
+	}
+	return nil, fmt.Errorf("open %s: %w", path, os.ErrNotExist)
 }
 
 // checkArbitrary: arbitrary byte strings and mutations of valid paths never panic or hang.
